@@ -5,9 +5,13 @@ proof: Props/C18.v over Model/Workflow.v instantiated with gen/Workflow_gen.v (f
 tie:   real task bodies (harness/tasks_c18.py) issuing generated sequences of wf.random / wf.utc_now / wf.uuid /
        wf.execute_task through real DistributedInvocation.run, re-executed (retry, simulated runner death +
        recovery) in the same app image, in fresh app images over the same SQLite file, interleaved with bodies
-       of other workflows sequentially and in baton-scheduled threads, on both state backends; every returned
-       value and the complete workflow data of every workflow is decoded to the model's symbolic values
-       (with the real md5 / random.Random / uuid) and compared with `render (run gen_cfg events)`.
+       of other workflows sequentially and in baton-scheduled threads, on both state backends; helper calls are
+       also pre-empted INSIDE the call (per-thread trace function: before every source line of pynenc/workflow/
+       in turn) while another workflow of the same image makes calls, and launched sub-invocations are really
+       run between / during the attempts of their parent and end in every way (SUCCESS, FAILED, RETRY, RUNNING
+       with a dead runner, KILLED, PENDING); every returned value and the complete workflow data of every
+       workflow is decoded to the model's symbolic values (with the real md5 / random.Random / uuid) and
+       compared with `render (run gen_cfg events)` (pre-empted calls: under some linearisation).
 oracle: the property statement evaluated on the decoded implementation observations (independent of the model).
 """
 from __future__ import annotations
@@ -30,20 +34,30 @@ MANIFEST = {
                  "from the source + differential correspondence on real task bodies run through DistributedInvocation.run",
     "text": "Machine-checked theorems (Props/C18.v) about Model/Workflow.v instantiated with the facts regenerated from "
             "workflow_context.py, workflow_deterministic.py and task.py on every run (where the DeterministicExecutor lives, "
-            "whether seeds contain the workflow id, whether the sub-task record key contains the call identity): for EVERY "
+            "whether seeds contain the workflow id, whether the sub-task record key contains the call identity, whether the "
+            "replay branch of execute_task hands the recorded invocation back unconditionally, whether the value generators "
+            "keep no state outside their own call - no class-level / module-level / global-generator state): for EVERY "
             "list of begin/operation events (any number of executions, processes, task objects, workflows, any interleaving "
             "at operation granularity) with a per-execution executor the n-th random/time/uuid of two executions of the same "
             "workflow is equal, a sub-task call is launched at most once per (workflow, call) and every execution gets that "
             "launch back, values returned to different workflows are different symbolic values and an execution only writes "
             "records of its own workflow; the executor scope the current source implements (cached per Task object) is refuted "
-            "by computed witnesses, and the statement is proved equivalent to scope = per execution. Tie: generated histories "
-            "(retry, runner death + recovery, fresh app image over the same SQLite file, other workflows sequentially and in "
-            "baton-scheduled threads) are executed on the real code on both state backends; all returned values and the full "
-            "workflow data are decoded with the real md5/random/uuid and compared with the model; an independent oracle "
-            "evaluates the property statement on the implementation's observations.",
+            "by computed witnesses, and the statement is proved equivalent to scope = per execution; a guarded replay branch "
+            "(re-launch depending on the state of the recorded sub-invocation) and a value generator that goes through "
+            "process-wide state (pre-empted between preparing and drawing) are refuted by computed witnesses too. Tie: generated "
+            "histories (retry, runner death + recovery, fresh app image over the same SQLite file, other workflows sequentially "
+            "and in baton-scheduled threads; helper calls pre-empted before every source line of pynenc/workflow/ in turn while "
+            "another workflow of the same image calls the helper, also in lock-step; launched sub-invocations really run and "
+            "ending SUCCESS / FAILED / RETRY / RUNNING-with-dead-runner / KILLED / PENDING between and during the attempts of "
+            "the parent) are executed on the real code on both state backends; all returned values and the full workflow data "
+            "are decoded with the real md5/random/uuid and compared with the model (pre-empted calls: under some linearisation); "
+            "an independent oracle evaluates the property statement on the implementation's observations.",
     "note": "Values are symbolic in the model (md5 / random.Random / uuid are an uninterpreted oracle; provenance stays visible). "
-            "Interleaving granularity is one helper call (threads are baton-scheduled at operation boundaries); attempts of ONE "
-            "workflow never overlap in time (the status machine gives an invocation one owner). A fresh process image is a fresh "
+            "Interleaving granularity in the MODEL is one helper call; on the implementation side threads are baton-scheduled at "
+            "operation boundaries and, in the pre-emption histories, at source-line boundaries of pynenc/workflow/*.py inside a "
+            "call (not inside the state backend / orchestrator code a call reaches; at most two calls pre-empted per history); "
+            "attempts of ONE workflow never overlap in time (the status machine gives an invocation one owner). The sub-task body "
+            "issues no workflow operations itself. A fresh process image is a fresh "
             "Pynenc app object with fresh Task objects over the same SQLite file (thorough tier adds a real child OS process). "
             "Known finding: the executor is cached per Task object (Task.wf cached_property + WorkflowContext._deterministic).",
     "design_ref": "DESIGN.md §6 C18",
@@ -53,6 +67,8 @@ IMPORTS = ["Model.Workflow", "gen.Workflow_gen"]
 EPOCH = datetime.datetime(2001, 1, 1, tzinfo=datetime.UTC)
 KINDS = {"r": 0, "t": 1, "u": 2}
 KIND_NAME = {0: "random", 1: "time", 2: "uuid"}
+TRACED_DIR = "/pynenc/workflow/"            # source files whose lines are pre-emption points
+CHILD_OUTCOMES = ("ok", "fail", "retry", "crash", "killed", "pending")
 KNOWN_MIXED = "cached-executor:workflows-mixed-same-process"
 KNOWN_REEXEC = "cached-executor:reexecution-same-process"
 
@@ -62,23 +78,84 @@ def op_code(o: str) -> list[int]:
     return [KINDS[o], 0] if o in KINDS else [3, int(o[1:])]
 
 
-def coq_events(case: dict) -> str:
-    """Model events of a case (EEnd markers have no model effect)."""
+def has_preemption(case: dict) -> bool:
+    return any(ev[0] == "P" for ev in case["schedule"])
+
+
+def _op_term(o: str) -> str:
+    return f"(ODet {['Rnd', 'Tim', 'Uid'][KINDS[o]]})" if o in KINDS else f"(OExec {int(o[1:])})"
+
+
+def model_variants(case: dict, gen_private: bool = True, replay_uncond: bool = True, cap: int = 64) -> list[str]:
+    """Model event lists of a case (EEnd markers have no model effect).  A helper call that is pre-empted
+    (P .. R) takes effect at some point between its two halves: one event list per choice (linearisations;
+    the first one puts every call where it completes).  With a non-private value generator a further
+    choice is `ESeed` at the pre-emption and the call at its completion.  A child run that fails is an
+    EChild event (the model ignores it unless the replay branch of execute_task is guarded)."""
     progs = {i + 1: [o for o in w["prog"].split(",") if o] for i, w in enumerate(case["workflows"])}
     pos: dict[int, int] = {}
     wf_of: dict[int, int] = {}
-    evs = []
-    for ev in case["schedule"]:
+    fixed: list[tuple[tuple, str]] = []          # (sort key, event text)
+    floating: list[dict] = []                    # pre-empted calls
+    open_p: dict[int, dict] = {}
+    requested: set = set()
+    final: set = set()
+    failed: set = set()
+    for i, ev in enumerate(case["schedule"]):
         if ev[0] == "B":
             _, e, p, w = ev
             wf_of[e], pos[e] = w, 0
-            evs.append(f"EBegin {e} {p} {case['workflows'][w - 1]['t']} {w}")
-        elif ev[0] == "O":
+            fixed.append(((i, 0, 0), f"EBegin {e} {p} {case['workflows'][w - 1]['t']} {w}"))
+        elif ev[0] in ("O", "P"):
             e = ev[1]
             o = progs[wf_of[e]][pos[e]]
             pos[e] += 1
-            evs.append(f"EOp {e} " + (f"(ODet {['Rnd', 'Tim', 'Uid'][KINDS[o]]})" if o in KINDS else f"(OExec {int(o[1:])})"))
-    return "[" + "; ".join(evs) + "]"
+            if o[0] == "x":
+                wc = (wf_of[e], int(o[1:]))
+                requested.add(wc)
+                if not replay_uncond and wc in failed:      # a guarded replay launches again: a new, unfinished child
+                    failed.discard(wc)
+                    final.discard(wc)
+            if ev[0] == "O":
+                fixed.append(((i, 0, 0), f"EOp {e} {_op_term(o)}"))
+            else:
+                open_p[e] = {"e": e, "o": o, "start": i, "end": None}
+                floating.append(open_p[e])
+        elif ev[0] == "R":
+            if ev[1] in open_p:
+                open_p.pop(ev[1])["end"] = i
+        elif ev[0] == "C":
+            _, w, c, how = ev
+            if (w, c) in requested and (w, c) not in final and how in ("ok", "fail"):
+                final.add((w, c))
+                if how == "fail":
+                    failed.add((w, c))
+                    fixed.append(((i, 0, 0), f"EChild {w} {c}"))
+    for f in floating:
+        if f["end"] is None:                     # never resumed: the attempt is ended while pre-empted
+            f["end"] = len(case["schedule"])
+    variants: list[list[tuple[tuple, str]]] = [[]]
+    for n, f in enumerate(floating):
+        text = f"EOp {f['e']} {_op_term(f['o'])}"
+        # "after schedule event j" for j = end-1 (completion) down to start (the pre-emption itself)
+        choices = [[((j, 2, r), text)] for j in range(f["end"] - 1, f["start"] - 1, -1) for r in (n, -n - 1)]
+        if not gen_private and f["o"] in KINDS:
+            choices += [[((f["start"], 1, n), f"ESeed {f['e']} {['Rnd', 'Tim', 'Uid'][KINDS[f['o']]]}"),
+                         ((f["end"] - 1, 2, r), text)] for r in (n, -n - 1)]
+        variants = [v + c for v in variants for c in choices]
+    out, seen = [], set()
+    for v in variants:
+        evs = "[" + "; ".join(t for _, t in sorted(fixed + v, key=lambda kt: kt[0])) + "]"
+        if evs not in seen:
+            seen.add(evs)
+            out.append(evs)
+        if len(out) > cap:
+            raise CheckError(f"too many linearisations for {json.dumps(case)}")
+    return out
+
+
+def coq_events(case: dict) -> str:
+    return model_variants(case)[0]
 
 
 def plans(case: dict) -> dict[int, tuple[int, str]]:
@@ -87,9 +164,9 @@ def plans(case: dict) -> dict[int, tuple[int, str]]:
     for ev in case["schedule"]:
         if ev[0] == "B":
             n[ev[1]] = 0
-        elif ev[0] == "O":
+        elif ev[0] in ("O", "P"):
             n[ev[1]] += 1
-        else:
+        elif ev[0] == "E":
             out[ev[1]] = (n[ev[1]], ev[2])
     return out
 
@@ -118,9 +195,16 @@ def gen_program(rng, maxlen: int) -> str:
 
 
 def gen_case(rng, backend: str, pattern: str, maxlen: int = 6) -> dict:
-    """One history. pattern: retry_same | recover_fresh | two_seq | two_threads | all_fresh | random"""
+    """One history. pattern: retry_same | recover_fresh | two_seq | two_threads | all_fresh | random | preempt
+    (preempt = two_threads/three workflows in one image with helper calls pre-empted at a source line while
+    another workflow runs).  Every pattern lets launched sub-invocations run and end in generated ways."""
     multi = backend == "sqlite"
-    nwf = {"retry_same": 1, "recover_fresh": 1, "two_seq": 2, "two_threads": 2}.get(pattern, rng.randint(1, 3))
+    if pattern == "preempt":
+        case = gen_case(rng, backend, "two_threads" if rng.random() < 0.7 else "three_threads", maxlen)
+        case["pattern"] = "preempt"
+        case["schedule"] = add_preemptions(rng, case["schedule"])
+        return case
+    nwf = {"retry_same": 1, "recover_fresh": 1, "two_seq": 2, "two_threads": 2, "three_threads": 3}.get(pattern, rng.randint(1, 3))
     same_body = rng.random() < 0.6
     base = gen_program(rng, maxlen)
     wfs = []
@@ -129,6 +213,8 @@ def gen_case(rng, backend: str, pattern: str, maxlen: int = 6) -> dict:
             t = i % 2                       # mem: at most two task objects -> at most two clean workflows
         else:
             t = 0 if pattern in ("two_seq", "two_threads") else rng.choice((0, 0, 1))
+            if pattern == "three_threads":
+                t = rng.choice((0, 0, 1))
         wfs.append({"t": t, "prog": base if same_body else gen_program(rng, maxlen)})
     if pattern == "all_fresh" and not multi:
         wfs = wfs[:2]
@@ -146,7 +232,7 @@ def gen_case(rng, backend: str, pattern: str, maxlen: int = 6) -> dict:
             return next_fresh[0] - 1
         if pattern == "recover_fresh":
             return attempt
-        if pattern in ("retry_same", "two_seq", "two_threads"):
+        if pattern in ("retry_same", "two_seq", "two_threads", "three_threads"):
             return 0
         return rng.choice((0, 0, 1, 2))
 
@@ -170,7 +256,7 @@ def gen_case(rng, backend: str, pattern: str, maxlen: int = 6) -> dict:
             blocks.append(blk)
             e += 1
         per_wf.append(blocks)
-    threads = pattern == "two_threads" or (pattern in ("random", "all_fresh") and rng.random() < 0.5)
+    threads = pattern in ("two_threads", "three_threads") or (pattern in ("random", "all_fresh") and rng.random() < 0.5)
     schedule: list[list] = []
     if threads:
         # op-granular random merge; attempts of one workflow stay sequential
@@ -187,7 +273,112 @@ def gen_case(rng, backend: str, pattern: str, maxlen: int = 6) -> dict:
             c = rng.choice([j for j, q in enumerate(queues) if q])
             schedule.extend(queues[c].pop(0))
     mode = "threads" if threads or rng.random() < 0.25 else "inline"
+    schedule = add_child_runs(rng, wfs, schedule, mode)
     return {"backend": backend, "pattern": pattern, "mode": mode, "workflows": wfs, "schedule": schedule}
+
+
+def add_child_runs(rng, wfs: list[dict], schedule: list[list], mode: str) -> list[list]:
+    """Let launched sub-invocations be picked up by a runner between the events of the history: C events
+    [C, workflow, call, outcome].  In inline mode an attempt runs as a whole at its B event, so child runs
+    are placed between attempts only."""
+    calls = sorted({(i + 1, int(o[1:])) for i, w in enumerate(wfs) for o in w["prog"].split(",") if o and o[0] == "x"})
+    if not calls or rng.random() < 0.3:
+        return schedule
+    out = list(schedule)
+    for _ in range(rng.randint(1, 3)):
+        w, c = rng.choice(calls)
+        how = rng.choice(("fail", "fail", "fail", "ok", "ok", "retry", "crash", "killed", "pending"))
+        if mode == "threads":
+            slots = list(range(1, len(out) + 1))
+            # not between a pre-empted call and its resumption of the same workflow's... any slot is legal
+        else:
+            slots = [i for i, ev in enumerate(out) if ev[0] == "B" and i > 0] + [len(out)]
+        out.insert(rng.choice(slots), ["C", w, c, how])
+    return out
+
+
+def add_preemptions(rng, schedule: list[list], max_pre: int = 2, max_gap: int = 2) -> list[list]:
+    """Turn up to `max_pre` helper calls into pre-empted ones: [P, e, k] runs the call up to its k-th source
+    line inside pynenc/workflow/, then up to `max_gap` following events of OTHER workflows happen, then [R, e]."""
+    wf_of = {ev[1]: ev[3] for ev in schedule if ev[0] == "B"}
+
+    def stream(ev):
+        return ev[1] if ev[0] == "C" else wf_of[ev[1]]
+    out = list(schedule)
+    for _ in range(max_pre):
+        cand = []
+        for i, ev in enumerate(out):
+            if ev[0] != "O":
+                continue
+            w = wf_of[ev[1]]
+            gap = 0
+            while i + 1 + gap < len(out) and gap < max_gap and out[i + 1 + gap][0] not in ("P", "R") \
+                    and stream(out[i + 1 + gap]) != w:
+                gap += 1
+            # no pre-empted call of another execution may be open across this one (keeps linearisations few)
+            open_before = sum(1 for x in out[:i] if x[0] == "P") - sum(1 for x in out[:i] if x[0] == "R")
+            if gap > 0 and open_before == 0:
+                cand.append((i, gap))
+        if not cand:
+            break
+        i, gap = rng.choice(cand)
+        e = out[i][1]
+        out[i] = ["P", e, rng.randint(2, 48)]
+        out.insert(i + 1 + rng.randint(1, gap), ["R", e])
+    return out
+
+
+def enumerate_child(backend: str) -> list[dict]:
+    """Every way a run of the recorded sub-invocation can end x the canonical re-executions of the parent body
+    (retry in the same image; runner death + recovery; on SQLite also the replay in a fresh image)."""
+    cases = []
+    for how in CHILD_OUTCOMES:
+        for end in ("retry", "crash"):
+            for img in ((0, 1) if backend == "sqlite" else (0,)):
+                sch = [["B", 0, 0, 1], ["O", 0], ["E", 0, end], ["C", 1, 1, how], ["B", 1, img, 1], ["O", 1], ["O", 1],
+                       ["E", 1, "retry"], ["C", 1, 2, how], ["B", 2, 0, 1], ["O", 2], ["O", 2], ["E", 2, "ok"]]
+                cases.append({"backend": backend, "pattern": "enum_child", "mode": "inline",
+                              "workflows": [{"t": 0, "prog": "x1,x2"}], "schedule": sch})
+    # the sub-invocation ends while its parent is still running, next to a second workflow making the same call
+    for how in CHILD_OUTCOMES:
+        sch = [["B", 0, 0, 1], ["B", 1, 0, 2], ["O", 0], ["O", 1], ["C", 1, 1, how], ["E", 0, "retry"], ["C", 2, 1, how],
+               ["B", 2, 0, 1], ["O", 2], ["E", 1, "crash"], ["B", 3, 0, 2], ["O", 3], ["E", 2, "ok"], ["E", 3, "ok"]]
+        cases.append({"backend": backend, "pattern": "enum_child", "mode": "threads",
+                      "workflows": [{"t": 0, "prog": "x1"}, {"t": 0, "prog": "x1"}], "schedule": sch})
+    return cases
+
+
+def probe_lines(backend: str, scratch: str) -> dict[str, int]:
+    """Source lines inside pynenc/workflow/ executed by one helper call of each kind on the current tree
+    (first call of a fresh executor; measured on the real code, so the enumeration below follows refactors)."""
+    kinds = ["r", "t", "u", "x1"]
+    case = {"backend": backend, "pattern": "probe", "mode": "threads", "workflows": [{"t": 0, "prog": k} for k in kinds],
+            "schedule": [x for i in range(len(kinds)) for x in (["B", i, 0, i + 1], ["P", i, 10 ** 6], ["R", i], ["E", i, "ok"])]}
+    raw = run_impl(case, scratch, "probe")
+    if raw["errors"]:
+        raise CheckError(f"line probe failed: {raw['errors']}")
+    return {k: max(1, raw["line_counts"].get(i, [1])[0]) for i, k in enumerate(kinds)}
+
+
+def enumerate_preempt(backend: str, lines: dict[str, int], pairs: list[tuple[str, str]], stride: int = 1) -> list[dict]:
+    """Workflow 1's call of kind a is pre-empted before EVERY source line k (of pynenc/workflow/) in turn;
+    workflow 2 (same task, same image) makes a complete call of kind b meanwhile; for a == b also the lock-step
+    schedule (both pre-empted before line k, then resumed in order) and the pre-emption of a second call of the
+    same kind (generator state left behind by earlier draws)."""
+    cases = []
+    for a, b in pairs:
+        for k in range(1, lines[a] + 2, stride):
+            sch = [["B", 0, 0, 1], ["B", 1, 0, 2], ["P", 0, k], ["O", 1], ["R", 0], ["E", 0, "ok"], ["E", 1, "ok"]]
+            cases.append({"backend": backend, "pattern": "enum_preempt", "mode": "threads",
+                          "workflows": [{"t": 0, "prog": a}, {"t": 0, "prog": b}], "schedule": sch})
+            if a == b:
+                sch = [["B", 0, 0, 1], ["B", 1, 0, 2], ["P", 0, k], ["P", 1, k], ["R", 0], ["R", 1], ["E", 0, "ok"], ["E", 1, "ok"]]
+                cases.append({"backend": backend, "pattern": "enum_lockstep", "mode": "threads",
+                              "workflows": [{"t": 0, "prog": a}, {"t": 0, "prog": b}], "schedule": sch})
+                sch = [["B", 0, 0, 1], ["B", 1, 0, 2], ["O", 0], ["O", 1], ["P", 1, k], ["O", 0], ["R", 1], ["E", 0, "ok"], ["E", 1, "ok"]]
+                cases.append({"backend": backend, "pattern": "enum_preempt2", "mode": "threads",
+                              "workflows": [{"t": 0, "prog": f"{a},{a}"}, {"t": 0, "prog": f"{b},{b}"}], "schedule": sch})
+    return cases
 
 
 def enumerate_small(backend: str, maxlen: int) -> list[dict]:
@@ -226,6 +417,10 @@ class _Handle:
         self.started = False
         self.task_obj = None
         self.seen_wf = None
+        self.budget = None          # pre-emption: park before the budget-th traced source line of the current call
+        self.lines = 0
+        self.midop = False          # parked inside a helper call (set before `done`)
+        self.line_counts: list[int] = []     # traced lines per pre-emptible call (probe / statistics)
 
 
 class Director:
@@ -238,6 +433,9 @@ class Director:
         self.pending: dict[tuple[int, str], _Handle] = {}
         self.log: list[tuple[int, str, object]] = []   # (e, op, raw value) in global order
         self.children: dict[int, object] = {}
+        self.child_outcome = "ok"                 # how the next run of the sub-task ends (tasks_c18.wf_child)
+        self.abort = False                        # harness failure path: every parked thread dies
+        self.exec_wf: dict[int, int] = {}
 
     def child_task(self, app):
         return self.children[id(app)]
@@ -253,14 +451,20 @@ class Director:
         from pynenc.exceptions import RetryError
         from harness.tasks_c18 import RunnerDeath
         n_ops, how = self.plan[h.e]
+        if h.budget is not None:                  # the previous call ended before its pre-emption point
+            h.line_counts.append(h.lines)
+            h.budget = None
         if self.mode == "threads":
             h.done.set()
-            if not h.go.wait(timeout=120):
+            if not h.go.wait(timeout=120) or self.abort:
                 raise RunnerDeath("harness baton timeout")
             h.go.clear()
             cmd = h.cmd
         else:
             cmd = "op" if idx < n_ops else how
+        if isinstance(cmd, tuple):                # ("pre", k): run the call up to its k-th traced line
+            h.lines, h.budget = 0, cmd[1]
+            cmd = "op"
         if cmd == "op":
             if idx >= n_ops:
                 raise RuntimeError("harness: operation scheduled past the plan")
@@ -273,6 +477,33 @@ class Director:
 
     def record(self, h: _Handle, idx: int, o: str, v):
         self.log.append((h.e, o, v))
+
+    # ---- pre-emption inside a helper call: a per-thread trace function counts the source lines executed in
+    # pynenc/workflow/*.py and parks the thread BEFORE the budget-th one (a legal thread switch, made deterministic)
+    def tracer(self, h: _Handle):
+        from harness.tasks_c18 import RunnerDeath
+        director = self
+
+        def local(frame, event, arg):
+            if event == "line" and h.budget is not None:
+                h.lines += 1
+                if h.lines >= h.budget:
+                    h.budget = None
+                    h.line_counts.append(-h.lines)
+                    h.midop = True
+                    h.done.set()
+                    ok = h.go.wait(timeout=120)
+                    if not ok or director.abort:
+                        raise RunnerDeath("harness baton timeout (pre-empted)")
+                    h.go.clear()
+                    h.midop = False
+            return local
+
+        def glob(frame, event, arg):
+            if h.budget is not None and TRACED_DIR in frame.f_code.co_filename:
+                return local
+            return None
+        return glob
 
 
 class FakeClock:
@@ -312,6 +543,11 @@ def run_impl(case: dict, scratch: str, tag: str) -> dict:
     images: dict[int, object] = {}
     tasks: dict[int, dict] = {}
     director = Director(case["mode"], plans(case))
+    director.exec_wf = {ev[1]: ev[3] for ev in case["schedule"] if ev[0] == "B"}
+    traced = has_preemption(case)
+    if traced and case["mode"] != "threads":
+        raise CheckError("pre-emption needs thread mode")
+    child_log: list = []
 
     def image(p: int):
         if backend == "mem":
@@ -320,7 +556,7 @@ def run_impl(case: dict, scratch: str, tag: str) -> dict:
             app = world.make_app(backend, scratch, app_id=app_id)
             images[p] = app
             tasks[p] = {0: app.task(T.wf_body_a, max_retries=1000), 1: app.task(T.wf_body_b, max_retries=1000),
-                        "child": app.task(T.wf_child)}
+                        "child": app.task(T.wf_child, max_retries=1000)}
             director.images[id(app)] = p
             director.children[id(app)] = tasks[p]["child"]
         return images[p]
@@ -358,13 +594,18 @@ def run_impl(case: dict, scratch: str, tag: str) -> dict:
             director.pending[(pp, inv_id)] = h
 
             def target():
+                import sys
                 try:
+                    if traced:
+                        sys.settrace(director.tracer(h))
                     inv.run(rc)
                 except T.RunnerDeath:
                     pass
                 except BaseException as ex:  # noqa: BLE001 - reported as harness error below
                     h.error = f"{type(ex).__name__}: {ex}"
                 finally:
+                    if traced:
+                        sys.settrace(None)
                     h.finished = True
                     h.done.set()
             if case["mode"] == "threads":
@@ -377,18 +618,64 @@ def run_impl(case: dict, scratch: str, tag: str) -> dict:
             else:
                 target()
 
+        def child_run(w: int, c: int, how: str):
+            """The sub-invocation last handed to workflow w for call c is picked up by a runner; `how` says how
+            that run ends.  No effect when nothing was launched yet or the invocation is already final."""
+            cid = next((v[1] for e, o, v in reversed(director.log) if o == f"x{c}" and director.exec_wf[e] == w), None)
+            if cid is None:
+                child_log.append([w, c, how, "not-launched"])
+                return
+            app = image(0)
+            rc = world.runner_ctx("runner-0")
+            orch = app.orchestrator
+            st = orch.get_invocation_status(cid)
+            if st.is_final():
+                child_log.append([w, c, how, "already-" + st.name])
+                return
+            if st == S.RUNNING:                       # its runner died: recovery
+                orch.set_invocation_status(cid, S.RUNNING_RECOVERY, rc)
+                orch.set_invocation_status(cid, S.REROUTED, rc)
+            elif st == S.KILLED:
+                orch.set_invocation_status(cid, S.REROUTED, rc)
+            if orch.get_invocation_status(cid) != S.PENDING:
+                orch.set_invocation_status(cid, S.PENDING, rc)
+            if how == "killed":
+                orch.set_invocation_status(cid, S.KILLED, rc)
+            elif how != "pending":
+                director.child_outcome = how
+                try:
+                    app.state_backend.get_invocation(cid).run(rc)
+                except T.RunnerDeath:
+                    pass
+                except Exception:  # noqa: BLE001 - a failing child re-raises its exception after recording it
+                    pass
+                finally:
+                    director.child_outcome = "ok"
+            child_log.append([w, c, how, orch.get_invocation_status(cid).name])
+
+        def baton(h, cmd):
+            if h.finished:
+                raise CheckError(f"execution {h.e} finished early: {h.error}")
+            h.cmd = cmd
+            h.go.set()
+            if not h.done.wait(timeout=120):
+                raise CheckError("baton timeout")
+            h.done.clear()
+
         for ev in case["schedule"]:
             if ev[0] == "B":
                 begin(ev[1], ev[2], ev[3])
+            elif ev[0] == "C":
+                child_run(ev[1], ev[2], ev[3])
             elif case["mode"] == "threads":
                 h = handles[ev[1]]
-                if h.finished:
-                    raise CheckError(f"execution {h.e} finished early: {h.error}")
-                h.cmd = "op" if ev[0] == "O" else ev[2]
-                h.go.set()
-                if not h.done.wait(timeout=120):
-                    raise CheckError("baton timeout")
-                h.done.clear()
+                if ev[0] == "R":
+                    if h.midop:                       # else: the call had ended before its pre-emption point
+                        baton(h, "resume")
+                    continue
+                if h.midop:
+                    raise CheckError("schedule continues an execution that is parked inside a call (missing R)")
+                baton(h, ("pre", ev[2]) if ev[0] == "P" else ("op" if ev[0] == "O" else ev[2]))
                 if ev[0] == "E":
                     threads[ev[1]].join(timeout=120)
         for h in handles.values():
@@ -412,6 +699,7 @@ def run_impl(case: dict, scratch: str, tag: str) -> dict:
             call_ids[str(c.call_id)] = n
         statuses = {w: app0.orchestrator.get_invocation_status(wid).name for w, wid in wf_ids.items()}
         return {"wf_ids": wf_ids, "log": list(director.log), "stores": stores, "children": children,
+                "child_runs": child_log, "line_counts": {e: h.line_counts for e, h in handles.items() if h.line_counts},
                 "call_ids": call_ids, "errors": errors, "clock_patched": patched, "statuses": statuses,
                 "task_objs": {e: h.task_obj for e, h in handles.items()},
                 "seen_wf": {e: h.seen_wf for e, h in handles.items()}}
@@ -419,6 +707,7 @@ def run_impl(case: dict, scratch: str, tag: str) -> dict:
         T.DIRECTOR = old_director
         if patched:
             wd.datetime = old_dt
+        director.abort = True
         for h in handles.values():          # release any thread still parked (harness failure paths)
             h.cmd = "crash"
             h.go.set()
@@ -449,6 +738,14 @@ def _rand(seed_string: str) -> float:
     return pyrandom.Random(int(hashlib.md5(seed_string.encode()).hexdigest()[:8], 16)).random()
 
 
+def _rand_later(seed_string: str, draws: int = 4) -> list[float]:
+    """2nd .. draws-th number of the generator seeded for seed_string (what a generator that is shared and
+    was already drawn from hands out: the model's VStale)."""
+    g = pyrandom.Random(int(hashlib.md5(seed_string.encode()).hexdigest()[:8], 16))
+    g.random()
+    return [g.random() for _ in range(draws - 1)]
+
+
 def _uuid(seed_string: str) -> str:
     return str(pyuuid.UUID(bytes=hashlib.md5(seed_string.encode()).digest()))
 
@@ -463,6 +760,10 @@ def decode(case: dict, raw: dict) -> dict:
         for n in range(1, maxn):
             rtab[_rand(f"{wid}:random:{n}")] = (w, n)
             utab[_uuid(f"{wid}:uuid:{n}")] = (w, n)
+    for w, wid in wf_ids.items():            # later draws of a generator seeded for (w, n): [6, w, n]
+        for n in range(1, maxn):
+            for v in _rand_later(f"{wid}:random:{n}"):
+                rtab.setdefault(v, (w, n, "stale"))
     for n in range(1, maxn):                 # seeds that lost the workflow id decode to workflow 0
         for s in (f"random:{n}", f":random:{n}", f"None:random:{n}"):
             rtab.setdefault(_rand(s), (0, n))
@@ -499,10 +800,15 @@ def decode(case: dict, raw: dict) -> dict:
             inv_index[inv_id] = len(inv_index)
         return [4, inv_index[inv_id], 0]
 
+    def dec_rand(v):
+        if v not in rtab:
+            return ["?", repr(v)]
+        return [6, *rtab[v][:2]] if len(rtab[v]) == 3 else [0, *rtab[v]]
+
     outs = []
     for e, o, v in raw["log"]:
         if o == "r":
-            d = [0, *rtab[v]] if v in rtab else ["?", repr(v)]
+            d = dec_rand(v)
         elif o == "u":
             d = [1, *utab[v]] if v in utab else ["?", repr(v)]
         elif o == "t":
@@ -518,7 +824,7 @@ def decode(case: dict, raw: dict) -> dict:
             if head in kname and tail.isdigit():
                 kc = [0, kname[head], int(tail)]
                 if head == "random":
-                    vc = [0, *rtab[v]] if v in rtab else ["?", repr(v)]
+                    vc = dec_rand(v)
                 elif head == "uuid":
                     vc = [1, *utab[v]] if v in utab else ["?", repr(v)]
                 else:
@@ -623,6 +929,9 @@ def oracle(case: dict, obs: dict) -> list[tuple[str, str]]:
             return f"derived from base time #{val[1]} which is not workflow {w}'s"
         if val[0] == "?":
             return "not derivable from any workflow id of this history"
+        if val[0] == 6:
+            return (f"a later draw of a generator that was seeded for workflow {val[1]} (sequence {val[2]}) and already "
+                    "drawn from: generator state shared between helper calls")
         return None
     for r in obs["outs"]:
         w = exec_wf[r[0]]
@@ -653,28 +962,66 @@ def oracle(case: dict, obs: dict) -> list[tuple[str, str]]:
 
 
 # =========================================================================== main
-def build_cases(ctx: Ctx) -> list[dict]:
+def build_cases(ctx: Ctx, scratch: str) -> list[dict]:
     rng = ctx.rng
     cases = []
     per = 14 if not ctx.thorough else 120
+    kinds = ["r", "t", "u", "x1"]
+    same = [(k, k) for k in kinds]
+    allp = [(a, b) for a in kinds for b in kinds]
     for backend in ("mem", "sqlite"):
-        for pattern in ("retry_same", "recover_fresh", "two_seq", "two_threads", "all_fresh", "random", "random"):
+        for pattern in ("retry_same", "recover_fresh", "two_seq", "two_threads", "all_fresh", "random", "random", "preempt"):
             if pattern == "recover_fresh" and backend == "mem":
                 continue            # a fresh image of the in-memory backend has no workflow to replay
             for _ in range(per):
                 cases.append(gen_case(rng, backend, pattern, 6 if not ctx.thorough else 8))
         cases += enumerate_small(backend, 1 if not ctx.thorough else 2)
+        cases += enumerate_child(backend)
+        lines = probe_lines(backend, scratch)
+        ctx.notes.setdefault("source_lines_per_helper_call", {})[backend] = lines
+        if ctx.thorough:
+            cases += enumerate_preempt(backend, lines, allp)
+        elif backend == "mem":
+            cases += enumerate_preempt(backend, lines, same)
+        else:
+            cases += enumerate_preempt(backend, lines, same, stride=3)
     return cases
+
+
+def canon(obs: dict) -> dict:
+    """Observations up to the order in which overlapping helper calls complete: outs grouped per execution,
+    launched invocations renumbered by first appearance there (used for histories with pre-empted calls)."""
+    outs = sorted(obs["outs"], key=lambda r: r[0])
+    ren: dict[int, int] = {}
+
+    def rn(i):
+        if i not in ren:
+            ren[i] = len(ren)
+        return ren[i]
+    outs = [[*r[:3], 4, rn(r[4]), 0] if r[3] == 4 else list(r) for r in outs]
+    for l in sorted(obs["launches"], key=lambda r: r[2]):
+        rn(l[2])
+    store = sorted(([*r[:4], 4, rn(r[5]), 0] if r[4] == 4 else list(r) for r in obs["store"]), key=lambda r: json.dumps(r))
+    launches = sorted(([l[0], l[1], rn(l[2])] for l in obs["launches"]), key=lambda r: r[2])
+    return {"outs": outs, "store": store, "launches": launches, "inv_wf": {rn(i): w for i, w in obs["inv_wf"].items()}}
 
 
 def evaluate(ctx: Ctx, cases: list[dict], scratch: str) -> None:
     # histories that never re-use a Task object first: a violation found there cannot be the cached executor
     cases = sorted(cases, key=lambda c: shared_task_objects(c) != "clean")
+    tinfo = ctx.translators.get("workflow", {})
+    gen_private = bool(tinfo.get("gen_private", True))
+    # the per-execution variant of gen_cfg is gen_cfg itself when that is the scope the source implements
+    same_cfg = tinfo.get("scope") == "PerExecution" and not tinfo.get("degraded", False)
     exprs = []
+    span = []
     for c in cases:
-        evs = coq_events(c)
-        exprs.append(f"render (run gen_cfg {evs})")
-        exprs.append(f"render (run (with_scope gen_cfg PerExecution) {evs})")
+        vs = model_variants(c, gen_private, bool(tinfo.get("replay_uncond", True)))
+        span.append((len(exprs), len(vs)))
+        for evs in vs:
+            exprs.append(f"render (run gen_cfg {evs})")
+            if not same_cfg:
+                exprs.append(f"render (run (with_scope gen_cfg PerExecution) {evs})")
     vals = ctx.coq_eval(IMPORTS, exprs, chunk=120)
     stats = {"cases": 0, "executions": 0, "operations": 0, "by_pattern": {}, "by_mode": {}, "by_backend": {},
              "by_sharing": {}, "impl_violations_by_kind": {}, "model_mismatches": 0, "op_kinds": {"r": 0, "t": 0, "u": 0, "x": 0},
@@ -682,15 +1029,39 @@ def evaluate(ctx: Ctx, cases: list[dict], scratch: str) -> None:
     distinct = set()
     mism_gen: list = []
     mism_fix: list = []
+    stats["child_runs"] = {}
+    stats["preempted_calls"] = {"parked_inside_call": 0, "call_ended_before_line": 0}
+    stats["linearisation_used"] = {}
     for i, case in enumerate(cases):
-        m_gen, m_fix = model_obs(vals[2 * i]), model_obs(vals[2 * i + 1])
         raw = run_impl(case, scratch, f"{i}")
         if raw["errors"]:
             raise CheckError(f"case {i}: harness/implementation error {raw['errors']} in {json.dumps(case)}")
         obs = decode(case, raw)
+        # the model under every linearisation of the pre-empted calls; the reference is the first one that
+        # explains the implementation (variant 0 = every call takes effect where it completes)
+        pre = has_preemption(case)
+        cmp_obs = canon(obs) if pre else obs
+        start, nv = span[i]
+        step = 1 if same_cfg else 2
+        cands = []
+        for j in range(nv):
+            g = model_obs(vals[start + j * step])
+            f = g if same_cfg else model_obs(vals[start + j * step + 1])
+            cands.append((canon(g), canon(f)) if pre else (g, f))
+        pick = next((j for j, (g, f) in enumerate(cands) if all(cmp_obs[k] == g[k] for k in ("outs", "store", "launches"))), None)
+        if pick is None:
+            pick = next((j for j, (g, f) in enumerate(cands) if all(cmp_obs[k] == f[k] for k in ("outs", "store", "launches"))), 0)
+        m_gen, m_fix = cands[pick]
+        if pre:
+            stats["linearisation_used"][str(pick)] = stats["linearisation_used"].get(str(pick), 0) + 1
+        for _w, _c, how, res in raw["child_runs"]:
+            stats["child_runs"][f"{how}->{res}"] = stats["child_runs"].get(f"{how}->{res}", 0) + 1
+        for lc in raw["line_counts"].values():
+            for n in lc:
+                stats["preempted_calls"]["parked_inside_call" if n < 0 else "call_ended_before_line"] += 1
         stats["cases"] += 1
         n_exec = sum(1 for ev in case["schedule"] if ev[0] == "B")
-        n_ops = sum(1 for ev in case["schedule"] if ev[0] == "O")
+        n_ops = sum(1 for ev in case["schedule"] if ev[0] in ("O", "P"))
         stats["executions"] += n_exec
         stats["operations"] += n_ops
         for k, v in (("by_pattern", case["pattern"]), ("by_mode", case["mode"]), ("by_backend", case["backend"]),
@@ -703,7 +1074,7 @@ def evaluate(ctx: Ctx, cases: list[dict], scratch: str) -> None:
                 stats["attempt_endings"][ev[2]] += 1
         if n_exec > 1 or n_ops > 1:
             distinct.add(json.dumps([case["workflows"], case["schedule"], case["backend"], case["mode"]]))
-        mm = judge(ctx, case, obs, m_gen, m_fix, stats)
+        mm = judge(ctx, case, obs, m_gen, m_fix, stats, cmp_obs)
         mism_gen += [mm[0]] if mm[0] else []
         mism_fix += [mm[1]] if mm[1] else []
         if i % 7 == 0:
@@ -726,17 +1097,30 @@ def evaluate(ctx: Ctx, cases: list[dict], scratch: str) -> None:
 
 
 def compact_schedule(s) -> str:
-    return " ".join(f"{ev[0]}{ev[1]}" + (f"@img{ev[2]}/wf{ev[3]}" if ev[0] == "B" else (f":{ev[2]}" if ev[0] == "E" else "")) for ev in s)
+    def one(ev):
+        if ev[0] == "C":
+            return f"C[wf{ev[1]}.x{ev[2]}:{ev[3]}]"
+        if ev[0] == "P":
+            return f"P{ev[1]}@line{ev[2]}"
+        return f"{ev[0]}{ev[1]}" + (f"@img{ev[2]}/wf{ev[3]}" if ev[0] == "B" else (f":{ev[2]}" if ev[0] == "E" else ""))
+    return " ".join(one(ev) for ev in s)
 
 
-def judge(ctx: Ctx, case: dict, obs: dict, m_gen: dict, m_fix: dict, stats: dict) -> list:
+def judge(ctx: Ctx, case: dict, obs: dict, m_gen: dict, m_fix: dict, stats: dict, cmp_obs: dict | None = None) -> list:
     replay = {"case": case}
     v_impl = oracle(case, obs)
     v_fix_kinds = {k for k, _ in oracle(case, m_fix)}
+    v_gen_kinds = {k for k, _ in oracle(case, m_gen)}
+    tinfo = ctx.translators.get("workflow", {})
+    # the cached executor can only be the explanation when the source (as far as it is known) caches it
+    cached_possible = tinfo.get("degraded", False) or tinfo.get("scope") == "PerTaskObject"
     sharing = shared_task_objects(case)
+    pre_note = (" (a helper call is pre-empted at a source line inside pynenc/workflow/ while another workflow of the "
+                "same process image runs)" if has_preemption(case) else "")
     for kind, text in v_impl:
         stats["impl_violations_by_kind"][kind] = stats["impl_violations_by_kind"].get(kind, 0) + 1
-        if kind not in v_fix_kinds and sharing != "clean":
+        if kind not in v_fix_kinds and sharing != "clean" and cached_possible and \
+                (tinfo.get("degraded", False) or kind in v_gen_kinds):
             # explained by the scope of the executor: absent from the same history under a per-execution executor,
             # and the history re-uses a Task object
             key = KNOWN_MIXED if sharing == "mixed" else KNOWN_REEXEC
@@ -747,16 +1131,18 @@ def judge(ctx: Ctx, case: dict, obs: dict, m_gen: dict, m_fix: dict, stats: dict
                     f" [{case['backend']}] e.g. {text}")
         else:
             key = f"{kind}:{case['backend']}"
-            what = f"[{case['backend']}, {case['pattern']}, {case['mode']}] {text}"
+            what = f"[{case['backend']}, {case['pattern']}, {case['mode']}] {text}{pre_note}"
         ctx.violation(key, what, {**replay, "violation": [kind, text], "observed": obs["outs"]})
     out = []
+    cobs = cmp_obs or obs
     for name, m in (("gen_cfg", m_gen), ("per_execution", m_fix)):
-        diff = next((k for k in ("outs", "store", "launches") if obs[k] != m[k]), None)
+        diff = next((k for k in ("outs", "store", "launches") if cobs[k] != m[k]), None)
         out.append(None if diff is None else
                    (f"model-mismatch:{case['backend']}:{diff}",
-                    f"[{case['backend']}, {case['pattern']}, {case['mode']}] implementation and model ({name}) disagree on {diff}: "
-                    f"impl={obs[diff]} model={m[diff]}",
-                    {**replay, "impl": obs, "model": m}))
+                    f"[{case['backend']}, {case['pattern']}, {case['mode']}] implementation and model ({name}"
+                    + (", under every linearisation of the pre-empted calls" if has_preemption(case) else "")
+                    + f") disagree on {diff}: impl={cobs[diff]} model={m[diff]}",
+                    {**replay, "impl": cobs, "model": m}))
     return out
 
 
@@ -825,7 +1211,7 @@ def main(ctx: Ctx) -> int:
     ctx.prove("Props/C18.v")
     scratch = world.scratch_dir()
     try:
-        cases = build_cases(ctx)
+        cases = build_cases(ctx, scratch)
         ctx.log(f"{len(cases)} histories")
         evaluate(ctx, cases, scratch)
         if ctx.thorough:
@@ -833,25 +1219,36 @@ def main(ctx: Ctx) -> int:
     finally:
         world.rm_scratch(scratch)
     ctx.notes["generated_facts"] = {k: info.get(k) for k in ("scope", "executor_held_by", "wf_context_per", "seed_wf",
-                                                              "task_key_call", "seq_offset", "degraded")}
+                                                              "task_key_call", "seq_offset", "replay_uncond", "gen_private", "gen_shared_state", "degraded")}
     ctx.assumptions += [
         "symbolic values: md5 / random.Random / uuid.UUID are functions of their seed string (uninterpreted in the model); "
         "the harness decodes real values with the real functions over the workflow ids of the history",
-        "interleaving granularity = one helper call (threads are baton-scheduled at operation boundaries); executions of ONE "
-        "workflow do not overlap in time (one owner per invocation, C02)",
+        "interleaving granularity = one helper call in the model; on the implementation additionally every source-line boundary of "
+        "pynenc/workflow/*.py inside a call (pre-emption histories); code reached below that (state backend, orchestrator) runs "
+        "uninterrupted; executions of ONE workflow do not overlap in time (one owner per invocation, C02)",
+        "a pre-empted helper call of the unchanged code is linearisable: the implementation must agree with the model for SOME "
+        "position of the call between its pre-emption and its completion (clock readings and launch numbering decide which)",
+        "sub-invocations are run by the harness (DistributedInvocation.run of the recorded invocation) and end as the schedule "
+        "says: return / ValueError / RetryError / runner death / killed before start / left pending",
         "a fresh process image = a fresh Pynenc app object (fresh Task objects) over the same SQLite file; the in-memory backend "
         "has a single image; thorough tier adds a real second OS process",
         "wall clock replaced inside workflow_deterministic by a shim whose k-th reading is 2001-01-01 + k days (distinct base times)",
-        "universe: <= 3 workflows, <= 3 attempts each, programs <= 6 (8) operations over {random, utc_now, uuid, execute_task(child, 1|2)}",
+        "universe: <= 3 workflows, <= 3 attempts each, programs <= 6 (8) operations over {random, utc_now, uuid, execute_task(child, 1|2)}, "
+        "<= 3 child runs and <= 2 pre-empted calls per generated history",
     ]
     ctx.trusted += [
-        "harness/tasks_c18.py task bodies + Director (baton, attempt endings: return / RetryError / simulated runner death)",
+        "harness/tasks_c18.py task bodies + Director (baton, attempt endings: return / RetryError / simulated runner death; "
+        "sys.settrace line counter that parks a thread inside a helper call; child runs)",
         "read-out of MemStateBackend._workflow_data and of the SQLite workflow_data table for the full workflow data",
     ]
     return ctx.finish(
         rule="histories = seeded patterns (retry in the same image, runner death + recovery in a fresh image, two workflows "
              "sequentially / in threads in one image, every execution in its own image, random mixtures) x random programs, plus ALL "
-             "programs up to length 1 (thorough: 2) under the canonical shapes; each history runs on the real code and in the model "
+             "programs up to length 1 (thorough: 2) under the canonical shapes, ALL endings of a sub-invocation run x canonical "
+             "re-executions of its parent, and for every helper-call kind (quick: pairs of the same kind; thorough: all 16 pairs) the "
+             "pre-emption before EVERY source line of pynenc/workflow/ executed by the call (line count probed on the current tree; "
+             "simple, lock-step and second-call variants; quick tier on SQLite every third line); random histories additionally carry "
+             "child runs and (pattern preempt) pre-empted calls; each history runs on the real code and in the model "
              "(gen_cfg and gen_cfg with a per-execution executor); evaluations = histories executed; distinct_nontrivial = distinct "
              "histories with more than one execution or operation")
 
@@ -868,6 +1265,10 @@ def replay(ctx: Ctx, path: str) -> int:
         print("workflow ids:", raw["wf_ids"])
         for e, o, v in raw["log"]:
             print(f"  execution {e} {o} -> {v}")
+        for w, c, how, res in raw["child_runs"]:
+            print(f"  run of the sub-invocation of workflow {w} call {c} requested to end '{how}': {res}")
+        for e, lc in raw["line_counts"].items():
+            print(f"  execution {e}: pre-emptible calls [lines executed; negative = parked before that line]: {lc}")
         for w, st in raw["stores"].items():
             print(f"  workflow data of workflow {w} ({raw['wf_ids'][w]}): {st}")
         print("decoded outs:", obs["outs"])
